@@ -108,15 +108,21 @@ def variants(names):
     return res
 
 
-def run(scn, kind, loop):
+def run(scn, kind, loop, reuse=False):
+    """reuse: plain `add` registrations go through ONE decorator object per registry, obtained once (`rpc = registry.add()`)"""
     disp = AsyncDispatcher() if kind == 'async' else Dispatcher()
     regs = {r: MethodRegistry(prefix=p) for r, p in PREFIX.items()}
     regs['d'] = disp.registry
+    decorators = {}
     ev = []
     for op in scn['hist']:
         r = op['r']
         if op['op'] == 'add':
-            if r == 'd':
+            if reuse:
+                if r not in decorators:
+                    decorators[r] = regs[r].add()
+                decorators[r](FN[op['fn']])
+            elif r == 'd':
                 disp.add(FN[op['fn']])
             else:
                 regs[r].add(FN[op['fn']])
@@ -154,6 +160,7 @@ def run(scn, kind, loop):
         ev.append({'ev': 'Probe', 'name': segs, 'reached': reached})
     s = dict(scn)
     s['kind'] = kind
+    s['reuse'] = reuse
     return {'scn': s, 'ev': ev}
 
 
@@ -161,5 +168,6 @@ if __name__ == '__main__':
     loop = asyncio.new_event_loop()
     out = []
     for i, s in enumerate(json.load(open(sys.argv[1]))):
-        out.append(run(s, 'async' if zlib.crc32(json.dumps(s, sort_keys=True).encode()) % 2 else 'sync', loop))    # by content, not by position
+        h = zlib.crc32(json.dumps(s, sort_keys=True).encode())        # variants by content, not by position
+        out.append(run(s, 'async' if h % 2 else 'sync', loop, reuse=(h // 2) % 2 == 1))
     json.dump(out, open(sys.argv[2], 'w'))
